@@ -236,6 +236,8 @@ def ih_root(name):
         return sf.IndexHierarchyGO(s), [('static_source', s)]
     if name == 'depth3':
         return sf.IndexHierarchyGO.from_labels([('a', 1, 'p'), ('a', 2, 'p'), ('b', 1, 'q')]), []
+    if name == 'depth3_last_root_two_mids':
+        return sf.IndexHierarchyGO.from_labels([('a', 1, 'p'), ('b', 1, 'q'), ('b', 2, 'q')]), []
     raise ValueError(name)
 
 
@@ -854,6 +856,21 @@ def ih_growth():
         lb = (labels_of(T)[-1][0], 700 + h.k) + tail(T)
         return dict(call=lambda: T.append(lb), new=[lb])
 
+    @reg('append_last_outer_held_mid_fresh_leaf')
+    def _(h):
+        # depth >= 3: outer label = the last one, an intermediate label held under it that is NOT the last there, a new leaf
+        T = h.T
+        ls = labels_of(T)
+        if T.depth < 3 or not ls:
+            return None
+        last = ls[-1]
+        for l in ls:
+            if l[0] == last[0] and l[:-1] != last[:-1]:
+                h.k += 1
+                lb = tuple(l[:-1]) + ('leaf%d' % h.k if isinstance(l[-1], str) else 800 + h.k,)
+                return dict(call=lambda: T.append(lb), new=[lb])
+        return None
+
     @reg('append_list_label')
     def _(h):
         T, lb = h.T, h.fresh()
@@ -1021,7 +1038,7 @@ FAMS = {
     'IndexGO': dict(growth=index_growth, derive=index_derive, core_g=INDEX_CORE_G, core_d=INDEX_CORE_D, mini_g=INDEX_MINI_G, mini_d=INDEX_MINI_D,
                     roots=['str', 'int', 'auto', 'empty', 'from_static', 'date']),
     'IHGO': dict(growth=ih_growth, derive=ih_derive, core_g=IH_CORE_G, core_d=IH_CORE_D, mini_g=IH_MINI_G, mini_d=IH_MINI_D,
-                 roots=['ab', 'product', 'from_static', 'depth3']),
+                 roots=['ab', 'product', 'from_static', 'depth3', 'depth3_last_root_two_mids']),
 }
 CLASSNAME = {'FrameGO': 'FrameGO', 'IndexGO': 'IndexGO', 'IHGO': 'IndexHierarchyGO'}
 _TABLES = {}
@@ -1318,7 +1335,7 @@ def run(repo, task):
                  rule='a case is one step (growth call, derivation, or growth of a derived grow-only container) of one history on a freshly built root; '
                       'non-trivial when the history applied at least one growth call (a duplicate argument needs an existing label, etc.)',
                  bound='roots: FrameGO x7 (<= 3 rows, <= 3 initial columns; flat/auto-integer/hierarchical/no columns; converted from Frame and FrameHE; '
-                       'built over a caller-held IndexGO), IndexGO x6, IndexHierarchyGO x4 (depth 2-3); alphabet: every growth argument class and every '
+                       'built over a caller-held IndexGO), IndexGO x6, IndexHierarchyGO x5 (depth 2-3); alphabet: every growth argument class and every '
                        'derivation in frame_growth/frame_derive, index_*, ih_*; histories: all of length <= 2 on the first root of each family (thorough: every root), on the other roots those with a core action in either position; ' +
                        ('length 3 core x core x all-growth on the first root of a family and core-derivation x core-growth x core-growth on the others; '
                         'length 4 over the mini alphabet on the first root' if tier == 'quick' else
